@@ -8,7 +8,7 @@ def run(tier, seed):
     try:
         from contracts import wave_comp_c, wave_kernels_c
         from pyvc.verify import verify
-        res.report = verify(wave_kernels_c.targets_c06() + wave_comp_c.targets_cuda(), timeout_s=20 if tier == 'quick' else 120)
+        res.report = verify(wave_kernels_c.targets_c06() + wave_comp_c.targets_cuda() + wave_comp_c.targets_cuda_io(), timeout_s=20 if tier == 'quick' else 120)
     except ImportError:
         res.report = None
     res.explanation = ('Tier P (unbounded): lane independence is part of the kernel contracts -- every access of _wave_eval, wave_capture_cpu/gpu, wave_assign_gpu to '
